@@ -249,11 +249,14 @@ func TestVerifC12(t *testing.T) {
 	cs := vfNewCases("Run_C12", 100)
 	cs.caseType = "case12"
 	root := vfNewRand(seed)
+	vfStartWatchdog(60 * time.Second)
+	defer vfStopWatchdog()
 	for i := 0; i < n; i++ {
 		r := root.Fork()
 		if only >= 0 && i != only {
 			continue
 		}
+		vfBeat(map[string]any{"case": i, "seed": seed})
 		nPeers := 3 + r.Intn(8)
 		nActions := 5 + r.Intn(8+i%20)
 		k := 20
